@@ -1,7 +1,7 @@
 (* Proofs/MacroExamples.v — C19: concrete documents (as abstract statements with their spelling) used by the
-   `Example`s of Props/C19.v, and the two families of spellings that COMPILE but are outside
-   `macro_supported`, with their refutations (both replayed on the real macro by lib/props/c19.py, kind
-   "unsupported"; observed on rustc 1.95 against the working tree). *)
+   `Example`s of Props/C19.v, and the family of spellings that COMPILES but is outside
+   `macro_supported` (integer-like key parts that do not print as themselves), with its refutation
+   (replayed on the real macro by lib/props/c19.py, kind "unsupported"; observed on rustc 1.95). *)
 From TV Require Import Base.Prelude Base.Utf8 Model.Datetime Model.DatetimeStd Model.Numbers Model.Macro Spec.Defs Spec.MacroSpec.
 Require Import String.
 
@@ -68,9 +68,12 @@ Definition ex_aot : list astmt :=
 (* ---- compile, but name another key / another number (outside macro_supported) ---- *)
 (* `05 = 1`: concat! prints an integer literal by VALUE: the macro's key is "5", the parser's "05" *)
 Definition bad_int_key : list astmt := [AKeyVal [bn "05"] (int_ "1")]%string.
-(* `a = -2147483649`: the negated literal is typed i32 and wraps (the overflowing_literals lint is attributed
-   to the macro's own `(-$v)` and suppressed): the macro's value is 2147483647 *)
-Definition bad_negative : list astmt := [AKeyVal [bi "a"] (neg_ "2147483649")]%string.
+(* negative integers beyond i32, down to i64::MIN, also inside an array and an inline table: typed i64 by
+   `macros::number` (before that repair the negated literal was an i32 and `-2147483649` wrapped to 2147483647) *)
+Definition ex_negative : list astmt :=
+  [ AKeyVal [bi "a"] (neg_ "2147483649"); AKeyVal [bi "b"] (neg_ "4294967296"); AKeyVal [bi "c"] (neg_ "9223372036854775808");
+    AKeyVal [bi "d"] (AArr [neg_ "3000000000"; neg_ "1"; AFloat SgMinus (s2b "1.5"); neg_ "0"] false);
+    AKeyVal [bi "e"] (AInl [([bi "x"], neg_ "9223372036854775807"); ([bi "y"], neg_ "2_147_483_649")]) ]%string.
 
 Lemma int_key_refuted :
   exists l t t', forallb (fun s => match s with AKeyVal [KBare [KPInt k]] v => forallb is_digit k && val_ok v | _ => false end) l = true
@@ -80,10 +83,3 @@ Proof.
   split; [vm_compute; reflexivity|]. split; [vm_compute; reflexivity|]. discriminate.
 Qed.
 
-Lemma negative_wrap_refuted :
-  exists l t t', forallb (fun s => match s with AKeyVal p (AInt SgMinus x) => path_ok p && int_text_ok x | _ => false end) l = true
-                 /\ eval l = Some t /\ macro_eval (tokens_of l) = EOk t' /\ t <> t'.
-Proof.
-  exists bad_negative. eexists. eexists. split; [reflexivity|].
-  split; [vm_compute; reflexivity|]. split; [vm_compute; reflexivity|]. discriminate.
-Qed.
